@@ -32,10 +32,10 @@ func init() {
 	core.Register(&core.Prop{
 		ID:    "C15",
 		Level: "exploration",
-		Rule: "twin monitor: X = history H1, Clear, history H2; Y = freshly constructed object, H2; the observation of X must equal Y's right after Clear and after every event of H2. H2 uses other index ranges than H1 (inside, overlapping, far below/above the old window, other pages), repeated clear/reuse cycles, DecodeAndMergeWith/MergeWith as first event after Clear; " +
+		Rule: "twin monitor: X = history H1, Clear, history H2; Y = freshly constructed object, H2; the observation of X must equal Y's right after Clear and after every event of H2. H2 uses other index ranges than H1 (inside, overlapping, far below/above the old window, other pages), repeated clear/reuse cycles, DecodeAndMergeWith/MergeWith as first event after Clear, a Clear issued when every weight had underflowed to zero, and interrupted decodes (a valid payload cut at any byte, applied to both; same error-or-not, same state afterwards) among the events of H2; " +
 			"sketch level (both variants, all 5 store kinds with the same N) and store level (all observers vs the exact model of a fresh store, after every event). Non-trivial = the hook shows retained capacity reused or a previously collapsed store cleared; distinct = hash of both histories.",
 		Cases:     core.Scale(16000, 400000),
-		Mandatory: []string{"oracle.clear_twin_checks", "layout.reuse_capacity", "layout.cleared_collapsed", "clear.then_decode_first", "clear.then_merge_first", "clear.cycles", "oracle.store_checks", "clear.then_compaction_heavy_history"},
+		Mandatory: []string{"oracle.clear_twin_checks", "layout.reuse_capacity", "layout.cleared_collapsed", "clear.then_decode_first", "clear.then_merge_first", "clear.cycles", "oracle.store_checks", "clear.then_compaction_heavy_history", "clear.after_all_weights_underflowed", "clear.then_interrupted_decode"},
 		Run:       runC15,
 	})
 }
@@ -360,6 +360,15 @@ func runC15(c *core.Ctx) {
 				return
 			}
 		}
+		if r.P(0.12) {
+			// every weight underflows to zero before the Clear: the sketch holds nothing, but its stores still
+			// span index ranges (and may be collapsed) - Clear must forget those all the same
+			c.Logf("X.Reweight(2^-1000) twice")
+			if c.Guard("Reweight", func() { X.I().Reweight(0x1p-1000); X.I().Reweight(0x1p-1000) }) {
+				return
+			}
+			c.Count("clear.after_all_weights_underflowed", 1)
+		}
 		lp0, ln0 := layoutsOf(X)
 		wasCollapsed := lp0.IsCollapsed || ln0.IsCollapsed
 		c.Logf("X.Clear()")
@@ -431,6 +440,29 @@ func runC15(c *core.Ctx) {
 			if e1 != nil || e2 != nil {
 				c.Failf("op.error", "valid operation %s returned %v / %v", op, e1, e2)
 				return
+			}
+			if r.P(0.1) {
+				// an interrupted decode (valid payload cut at any byte): whatever it leaves behind, it leaves the
+				// same in a reused sketch as in a new one
+				a := h2.recipe()
+				if specX.Kind == gen.SPaginated && r.Bool() {
+					a.Spec = specX
+				}
+				var payload []byte
+				a.build(exact, mX).I().Encode(&payload, r.Bool())
+				if len(payload) > 1 {
+					payload = payload[:r.Range(1, len(payload)-1)]
+				}
+				var d1, d2 error
+				c.Logf("X/Y.DecodeAndMergeWith(first %d bytes of the encoding of a %s sketch with %d items)", len(payload), a.Spec, len(a.Items))
+				if c.Guard("DecodeAndMergeWith(cut payload)", func() { d1 = X.I().DecodeAndMergeWith(payload); d2 = Y.I().DecodeAndMergeWith(payload) }) {
+					return
+				}
+				c.Count("clear.then_interrupted_decode", 1)
+				if (d1 == nil) != (d2 == nil) {
+					c.Failf("cleared_differs_from_new", "an interrupted decode returned %v on the reused sketch and %v on a new one", d1, d2)
+					return
+				}
 			}
 			if heavy && oi%8 != 7 && oi != len(ops2)-1 {
 				continue
